@@ -180,17 +180,24 @@ class Integer(Type):
     def set_restricted_to_range(self, minimum, maximum, has_extension_marker):
         self.has_extension_marker = has_extension_marker
 
+        if minimum != 'MIN':
+            # Semi-constrained if there is no upper bound.
+            self.minimum = minimum
+
         if minimum == 'MIN' or maximum == 'MAX':
             return
 
-        self.minimum = minimum
         self.maximum = maximum
         size = self.maximum - self.minimum
         self.number_of_bits = integer_as_number_of_bits(size)
 
+    def is_in_root(self, data):
+        return ((self.minimum is None or data >= self.minimum)
+                and (self.maximum is None or data <= self.maximum))
+
     def encode(self, data, encoder):
         if self.has_extension_marker:
-            if self.minimum <= data <= self.maximum:
+            if self.is_in_root(data):
                 encoder.append_bit(0)
             else:
                 encoder.append_bit(1)
@@ -198,7 +205,11 @@ class Integer(Type):
                 return
 
         if self.number_of_bits is None:
-            encoder.append_unconstrained_whole_number(data)
+            if self.minimum is None:
+                encoder.append_unconstrained_whole_number(data)
+            else:
+                encoder.append_semi_constrained_whole_number(
+                    data - self.minimum)
         else:
             encoder.append_non_negative_binary_integer(data - self.minimum,
                                                        self.number_of_bits)
@@ -209,7 +220,11 @@ class Integer(Type):
                 return decoder.read_unconstrained_whole_number()
 
         if self.number_of_bits is None:
-            return decoder.read_unconstrained_whole_number()
+            if self.minimum is None:
+                return decoder.read_unconstrained_whole_number()
+            else:
+                return (self.minimum
+                        + decoder.read_semi_constrained_whole_number())
         else:
             value = decoder.read_non_negative_binary_integer(self.number_of_bits)
 
